@@ -38,3 +38,10 @@ Definition check (nw : nat) (retry_ : bool) (extra_ : nat) (rr : bool) (refs : l
   let s0 := fold_left (env_step c) pre (fresh (fun j => existsb (Nat.eqb j) pre_closed)) in
   let '(o, s) := run_from c s0 inputs script in
   out_eqb o expect.
+
+(* several runs of one pool (harness/props/c09.py) *)
+Definition check_rounds (nw : nat) (retry_ : bool) (extra_ : nat) (rr : bool) (picks : list nat)
+                        (rs : list (list between * list Z * list op)) (expect : list eout) : bool :=
+  let c := mkCfg nw sq retry_ extra_ rr (fun _ _ => false) (fun k => nth k picks 0%nat) true in
+  let os := rounds c (fresh (fun _ => false)) rs in
+  Nat.eqb (length os) (length expect) && forallb (fun p => out_eqb (fst p) (snd p)) (combine os expect).
